@@ -56,6 +56,17 @@ type simBucket struct {
 	readErr  map[string]error
 	read     map[string]bool
 	sequence []string
+	// noMD5: the store does not provide content hashes (driver.Attributes.MD5 is nil "if not available": multipart or
+	// encrypted uploads, composite objects)
+	noMD5 bool
+}
+
+func (b *simBucket) md5Of(data []byte) []byte {
+	if b.noMD5 {
+		return nil
+	}
+	sum := md5.Sum(data)
+	return sum[:]
 }
 
 func (b *simBucket) resetPoll() {
@@ -102,8 +113,7 @@ func (b *simBucket) ListPaged(_ context.Context, opts *driver.ListOptions) (*dri
 	page := &driver.ListPage{}
 	for _, k := range keys {
 		o := b.objects[k]
-		sum := md5.Sum(o.data)
-		page.Objects = append(page.Objects, &driver.ListObject{Key: k, ModTime: o.modTime, Size: int64(len(o.data)), MD5: sum[:]})
+		page.Objects = append(page.Objects, &driver.ListObject{Key: k, ModTime: o.modTime, Size: int64(len(o.data)), MD5: b.md5Of(o.data)})
 	}
 	return page, nil
 }
@@ -123,8 +133,7 @@ func (b *simBucket) Attributes(_ context.Context, key string) (*driver.Attribute
 		b.attrErr[key] = err
 		return nil, err
 	}
-	sum := md5.Sum(o.data)
-	return &driver.Attributes{ContentType: o.ctype, ModTime: o.modTime, Size: int64(len(o.data)), MD5: sum[:]}, nil
+	return &driver.Attributes{ContentType: o.ctype, ModTime: o.modTime, Size: int64(len(o.data)), MD5: b.md5Of(o.data)}, nil
 }
 
 type simReader struct {
@@ -192,8 +201,11 @@ func blobProvSim(r *simcore.Run) {
 		s := r.Src
 		const interval = 2 * time.Minute
 		single := s.Draw(3, "single-object-mode") == 2
-		bkt := &simBucket{objects: map[string]*simObject{}}
+		bkt := &simBucket{objects: map[string]*simObject{}, noMD5: s.Draw(4, "store-without-md5") == 3}
 		bkt.resetPoll()
+		if bkt.noMD5 {
+			r.Count("stores-without-md5", 1)
+		}
 		curBucket = bkt
 		faultPct := 0
 		bkt.fault = func(op, key string) error {
